@@ -121,6 +121,17 @@ def run_case(case, ctx):
                 t[len(t) // 2] = row
                 setattr(a, arr, t)
                 st.count("terms_listing_one_atom_twice")
+    if n >= 2 and case["s"] % 3 == 1:
+        # two terms of a kind over the same atoms (a torsion described by two cosine terms, a bond listed once per periodic
+        # image): the rows are equal, their types and extra fields are their own
+        for arr in ("bonds", "angles", "dihedrals", "impropers"):
+            t = np.asarray(getattr(a, arr))
+            if len(t) >= 2:
+                t = t.copy()
+                k1, k2 = (int(x) for x in np.random.default_rng(case["s"] + 1).choice(len(t), 2, replace=False))
+                t[k2] = t[k1] if case["s"] % 2 else t[k1][::-1]
+                setattr(a, arr, t)
+                st.count("terms_over_the_same_atoms_as_another_term")
     m0 = AM.resolve(a)
     ids = m0.ids()
     any_removed = any_survived = False
@@ -225,6 +236,8 @@ def requirements(stats, tier):
         need.append("second and later deletions on one object that still had terms: %d" % stats.get("later_deletions_from_an_object_that_still_had_terms"))
     if stats.nseen("array_flavour") < 5:
         need.append("array flavours of the structure (integer widths, memory order, read-only): %s" % sorted(stats.sets.get("array_flavour", [])))
+    if stats.get("terms_over_the_same_atoms_as_another_term") < (10 if tier == "quick" else 1000):
+        need.append("terms over the same atoms as another term of the kind: %d" % stats.get("terms_over_the_same_atoms_as_another_term"))
     if stats.get("terms_listing_one_atom_twice") < (10 if tier == "quick" else 1000):
         need.append("terms that list one atom twice (bonded to its own image): %d" % stats.get("terms_listing_one_atom_twice"))
     if stats.get("pops_checked") < 20:
